@@ -36,6 +36,9 @@ class Model(object):
         self.alias[nm] = grp[0]
     # fs_undeclared: ordered (A, B) pairs missing from A's density mapping (a defaultdict giving a zero function)
     self.fs_undeclared = set(fs_undeclared or [])
+    # energy_override: pair keys whose potential is a Potential subclass overriding energy() (its table is that method's
+    # value, function phiE_a_b, not the wrapped potentialFunction phi_a_b)
+    self.energy_override = set()
     # surplus: pair potentials handed to the writer that mention a species the model does not tabulate
     # ((a, b) species as declared); the file must be the same as without them
     self.surplus = list(surplus or [])
@@ -56,6 +59,8 @@ class Model(object):
       s += " one-object-for=%s" % ",".join("%s=%s" % kv for kv in sorted(self.alias.items()))
     if self.fs_undeclared:
       s += " undeclared-densities=%s" % ",".join("%s->%s" % p for p in sorted(self.fs_undeclared))
+    if self.energy_override:
+      s += " energy()-overridden-for=%s" % ",".join("%s-%s" % p for p in sorted(self.energy_override))
     if self.dip is not None:
       s += " dip=%s quad=%s" % (ps(self.dip), ps(self.quad))
     return s
@@ -133,10 +138,23 @@ def build_objects(model, mk, meta):
     z, mass, a, lat = meta(e)
     eampots.append(EAMPotential(e, z, mass, mk("F_%s" % e), dens, a, lat))
 
+  class _EnergyOverride(Potential):
+    """a user's subclass: the energy is not the wrapped function"""
+
+    def __init__(self, a, b, f, e):
+      Potential.__init__(self, a, b, f)
+      self._e = e
+
+    def energy(self, r):
+      return self._e(r)
+
   def plist(states, prefix):
     out = []
     for k, st in sorted(states.items()):
       if st is not None:
+        if prefix == "phi" and k in model.energy_override:
+          out.append(_EnergyOverride(st[0], st[1], mk("phi_%s_%s" % k), mk("phiE_%s_%s" % k)))
+          continue
         out.append(Potential(st[0], st[1], mk("%s_%s_%s" % (prefix, k[0], k[1]))))
     for (a, b) in model.surplus:
       out.append(Potential(a, b, mk("%sx_%s_%s" % (prefix, a, b))))
@@ -220,7 +238,7 @@ def expected_setfl(model, nr, nrho, dr, drho, alg, meta, style):
           if st is None:
             E[(tag, i, j, k)] = alg.num(0)
           else:
-            v = alg.fn("%s_%s_%s" % (prefix, key[0], key[1]))(r)
+            v = alg.fn("%s_%s_%s" % (("phiE" if (prefix == "phi" and key in model.energy_override) else prefix), key[0], key[1]))(r)
             E[(tag, i, j, k)] = r * v if scale else v
   tri(model.pairs, "phi", "pair", True)
   if style == "adp":
@@ -319,7 +337,7 @@ def expected_tabeam(model, nr, nrho, dr, drho, alg):
     else:
       n, step = nr, dr
       st = model.pairs.get(sp)
-      f = alg.fn("phi_%s_%s" % sp) if st is not None else None
+      f = alg.fn(("phiE_%s_%s" if tuple(sp) in model.energy_override else "phi_%s_%s") % sp) if st is not None else None
     E[("start",) + key] = alg.num(0)
     E[("end",) + key] = alg.num(n - 1) * step
     for k in range(n):
@@ -356,6 +374,7 @@ def function_names(model):
       names.append("rho_%s" % e)
   for k in all_pair_keys(model.elements):
     names.append("phi_%s_%s" % k)
+    names.append("phiE_%s_%s" % k)
     names.append("u_%s_%s" % k)
     names.append("w_%s_%s" % k)
   for (a, b) in model.surplus:
